@@ -249,6 +249,10 @@ Exit(e, escaped) ==
   /\ verdict' = Fail(<<
        <<"BootFailureHalts", "C03", bf = 0 \/ (~escaped /\ status \in {3, 4})>>,
        <<"UnexpectedExit", "C03", bf # 0 \/ mode # 0>>,
+       \* a master that ends without having been told to (and without a boot failure) has stopped supervising / serving:
+       \* nothing is replaced, reloaded or listened to any more
+       <<"MasterExitedUnasked", "C10", bf # 0 \/ mode # 0>>,
+       <<"MasterExitedUnasked", "C11", bf # 0 \/ mode # 0>>,
        <<"ExitStatusZeroOnTerm", "C04", ~byTerm \/ (~escaped /\ status = 0)>>,
        <<"NoWorkerSurvives", "C04", ~byTerm \/ Live = {}>>,
        <<"ListenersClosed", "C04", ~byTerm \/ nopen = 0>>,
